@@ -170,8 +170,13 @@ impl RadixSort {
 
     fn sort_u32_sequential(&self, data: &mut [u32]) -> Result<()> {
         if data.len() <= self.config.use_counting_sort_threshold {
-            self.counting_sort_u32(data);
-            return Ok(());
+            // counting sort needs one counter per key value: only worth it (and only safe) for a
+            // key range comparable to the input size, not for e.g. a single u32::MAX (32 GiB)
+            let max_val = data.iter().copied().max().unwrap_or(0) as usize;
+            if max_val <= 4 * data.len().max(256) {
+                self.counting_sort_u32(data);
+                return Ok(());
+            }
         }
 
         let radix = 1usize << self.config.radix_bits;
